@@ -706,7 +706,8 @@ def r9_operators(ctx: Ctx) -> None:
             ctx.check(ok, 'C04.R9', m, f'un:{ci.name}:{name}', f'ast.{name} applied to the operand', f'ast.{name} arm computes {[src(b) for b in ops]}', n)
         m = ci.methods['_eval_IfExp']
         ifs = [s for s in m.node.body if isinstance(s, ast.If)]
-        ok = len(ifs) == 1 and match(ifs[0], 'if self.evaluate(node.test):\n    return self.evaluate(node.body)\nelse:\n    return self.evaluate(node.orelse)')
+        ok = len(ifs) == 1 and (match(ifs[0], 'if self.evaluate(node.test):\n    return self.evaluate(node.body)\nelse:\n    return self.evaluate(node.orelse)') or
+                                (match(ifs[0], 'if self.evaluate(node.test):\n    return self.evaluate(node.body)') and match(m.node.body[-1], 'return self.evaluate(node.orelse)')))
         ctx.check(ok, 'C04.R9', m, f'ifexp:{ci.name}', 'x if c else y: body under a truthy test, orelse otherwise', 'IfExp arms are not body/orelse under test')
 
 
